@@ -1,0 +1,134 @@
+//go:build verif
+
+// Contracts for s1.Interval (property C19): intervals on the circle, including empty, full, inverted
+// (wrapping) ones and both representations of +-pi. Exact IEEE-754 semantics; p is a ghost probe point
+// (universally quantified). Comment-only.
+
+package s1
+
+//@ import "math"
+
+//@ property C19
+
+// a point of the circle in its canonical range (excludes NaN)
+//@ spec func vcPt(p float64) bool = -math.Pi <= p && p <= math.Pi
+
+//@ func IntervalFromEndpoints(lo, hi float64) Interval
+//@   inline
+//@   fp
+//@   timeout 120
+//@   requires vcPt(lo) && vcPt(hi)
+//@   ensures [valid] result.IsValid()
+
+//@ func IntervalFromPointPair(a, b float64) Interval
+//@   inline
+//@   fp
+//@   timeout 120
+//@   requires vcPt(a) && vcPt(b)
+//@   ensures [valid] result.IsValid()
+//@   ensures [contains] result.Contains(a) && result.Contains(b)
+
+//@ func (i Interval) Invert() Interval
+//@   inline
+//@   fp
+//@   timeout 120
+//@   requires i.IsValid()
+//@   ensures [valid] result.IsValid()
+
+//@ func (i Interval) Contains(p float64) bool
+//@   inline
+//@   fp
+//@   timeout 120
+//@   requires i.IsValid() && vcPt(p)
+//@   ensures [empty] i.IsEmpty() ==> !result
+//@   ensures [full] i.IsFull() ==> result
+//@   ensures [pi] i.Contains(math.Pi) == i.Contains(-math.Pi)
+
+//@ func (i Interval) Union(oi Interval) Interval
+//@   inline
+//@   fp
+//@   timeout 120
+//@   ghost p float64
+//@   requires i.IsValid() && oi.IsValid() && vcPt(p)
+//@   ensures [valid] result.IsValid()
+//@   ensures [sound] i.Contains(p) || oi.Contains(p) ==> result.Contains(p)
+
+//@ func (i Interval) Intersection(oi Interval) Interval
+//@   inline
+//@   fp
+//@   timeout 120
+//@   ghost p float64
+//@   requires i.IsValid() && oi.IsValid() && vcPt(p)
+//@   ensures [valid] result.IsValid()
+//@   ensures [sound] i.Contains(p) && oi.Contains(p) ==> result.Contains(p)
+//@   ensures [no-extra] result.Contains(p) ==> i.Contains(p) || oi.Contains(p)
+
+//@ func (i Interval) ContainsInterval(oi Interval) bool
+//@   inline
+//@   fp
+//@   timeout 120
+//@   ghost p float64
+//@   requires i.IsValid() && oi.IsValid() && vcPt(p)
+//@   ensures [sound] result && oi.Contains(p) ==> i.Contains(p)
+
+//@ func (i Interval) InteriorContainsInterval(oi Interval) bool
+//@   inline
+//@   fp
+//@   timeout 120
+//@   ghost p float64
+//@   requires i.IsValid() && oi.IsValid() && vcPt(p)
+//@   ensures [sound] result && oi.Contains(p) ==> i.InteriorContains(p)
+
+//@ func (i Interval) Intersects(oi Interval) bool
+//@   inline
+//@   fp
+//@   timeout 120
+//@   ghost p float64
+//@   requires i.IsValid() && oi.IsValid() && vcPt(p)
+//@   ensures [complete] i.Contains(p) && oi.Contains(p) ==> result
+//@   ensures [sound] result ==> (i.Contains(oi.Lo) && oi.Contains(oi.Lo)) || (i.Contains(oi.Hi) && oi.Contains(oi.Hi)) || (i.Contains(i.Lo) && oi.Contains(i.Lo)) || (i.Contains(i.Hi) && oi.Contains(i.Hi))
+
+//@ func (i Interval) InteriorIntersects(oi Interval) bool
+//@   inline
+//@   fp
+//@   timeout 120
+//@   ghost p float64
+//@   requires i.IsValid() && oi.IsValid() && vcPt(p)
+//@   ensures [complete] i.InteriorContains(p) && oi.Contains(p) ==> result
+
+//@ func (i Interval) AddPoint(p float64) Interval
+//@   inline
+//@   fp
+//@   timeout 120
+//@   ghost q float64
+//@   requires i.IsValid() && vcPt(p) && vcPt(q)
+//@   ensures [valid] result.IsValid()
+//@   ensures [added] result.Contains(p)
+//@   ensures [kept] i.Contains(q) ==> result.Contains(q)
+
+//@ func (i Interval) Complement() Interval
+//@   inline
+//@   fp
+//@   timeout 120
+//@   ghost p float64
+//@   requires i.IsValid() && vcPt(p)
+//@   ensures [valid] result.IsValid()
+//@   ensures [covers] i.Contains(p) || result.Contains(p)
+
+//@ func (i Interval) Project(p float64) float64
+//@   inline
+//@   fp
+//@   timeout 120
+//@   requires i.IsValid() && vcPt(p) && !i.IsEmpty()
+//@   ensures [inside] i.Contains(result)
+//@   ensures [fixed] i.Contains(p) && p != -math.Pi ==> result == p
+
+//@ func (i Interval) Expanded(margin float64) Interval
+//@   inline
+//@   thorough
+//@   fp
+//@   timeout 120
+//@   ghost p float64
+//@   requires i.IsValid() && vcPt(p) && margin >= 0 && margin <= 100
+//@   ensures [valid!] result.IsValid()
+//@   ensures [kept!] i.Contains(p) ==> result.Contains(p)
